@@ -51,6 +51,14 @@ def run(rep, tier, replay):
                 f = [rng.randrange(0, rng.choice([2, 50, 3000])) for _ in range(n)]
             assert sum(f) <= 900001      # a block holds at most 900000 symbols + EOB
             vecs.append(f)
+    # sparse tables: a few used symbols (one of them occurring once, like EOB) among many zero-frequency ones, which
+    # package-merge has to pack into weightless packages many levels deep
+    for n in range(20, 259, 1 if tier == "thorough" else 7):
+        for counts in ([rng.choice([40, 5000, 300000]), 1], [rng.choice([7, 900]), 1, 1], [1, 1], [rng.choice([3, 60000]), rng.choice([2, 3]), 1, 1]):
+            f = [0] * n
+            for pos, c in zip(rng.sample(range(n), len(counts)), counts):
+                f[pos] = c
+            vecs.append(f)
     p = subprocess.run([hx], input="\n".join("%d %s" % (len(f), " ".join(map(str, f))) for f in vecs) + "\n", capture_output=True, text=True, timeout=300)
     lens = [list(map(int, l.split()[2:])) for l in p.stdout.splitlines() if l.startswith("L ")]
     if p.returncode != 0 or len(lens) != len(vecs):
